@@ -71,6 +71,8 @@ func run(r *vk.Run) {
 	m.unknownFieldObservations()
 	m.multiSubscriberPhase()
 	lap("multi-subscriber")
+	m.traitServerPhase()
+	lap("trait-servers")
 
 	q := r.Quick()
 	pick := func(a, b int) int {
